@@ -28,6 +28,9 @@ def tasks(tier):
     for ph, fb in kernel.FABRICS if tier == "thorough" else [kernel.FABRICS[0], kernel.FABRICS[2], kernel.FABRICS[5]]:
         for regime in ("matrix_dislocation", "frictional_yielding"):
             t.append(("t_zero_L", {"phase": ph, "fabric": fb, "regime": regime, "n_grains": n}))
+    # the remaining accepted regimes (the rate does not depend on the fabric there)
+    for regime in ("matrix_diffusion", "min_viscosity", "max_viscosity"):
+        t.append(("t_zero_L", {"phase": "olivine", "fabric": "olivine_A", "regime": regime, "n_grains": n}))
     return t
 
 
